@@ -7,11 +7,13 @@ from . import common, doc as D
 
 def _one(job):
     d, opts = job
+    opts = dict(opts)
+    dense = opts.pop("_dense", False)
     svg = D.concretise(d)
     r = D.convert(svg, **opts)
     if r[0] == "ok":
         try:
-            pr = D.project(r[1])
+            pr = D.project(r[1], vb=tuple(d["vb"]), dense=dense)
             o = {"k": "ok", "layers": pr["layers"], "notes": pr["notes"]}
         except Exception as e:  # noqa
             o = {"k": "exc", "t": "projection:" + type(e).__name__ + ":" + str(e)[:80]}
@@ -34,7 +36,7 @@ def run_render(out, pid, focus, tier, nquick, nthorough, max_nodes=6, opts=None,
         if key in seen or not keep(d):
             continue
         seen.add(key)
-        uniq.append((d, opts))
+        uniq.append((d, dict(opts, _dense=(tier == "thorough"))))
     res = common.pmap(_one, uniq)
     recs = [r for r, t in res]
     texts = [t for r, t in res]
